@@ -448,8 +448,67 @@ impl<'a> Model for TipModel<'a> {
     }
 }
 
+fn parse_ev(s: &str) -> Option<Ev> {
+    let (name, a) = bfs::parse_call(s);
+    Some(match name.as_str() {
+        "Deliver" => Ev::Deliver(*a.first()? as usize),
+        "Grow" => Ev::Grow(*a.first()? as usize, *a.get(1)? as u64),
+        "Switch" => Ev::Switch(*a.first()? as usize),
+        "Forged" => Ev::Forged(*a.first()? as usize, *a.get(1)? as u8),
+        "Dup" => Ev::Dup(*a.first()? as usize),
+        "Tick" => Ev::Tick,
+        "Restart" => Ev::Restart,
+        _ => return None,
+    })
+}
+
+fn signature(hist: &[Ev], class: &str) -> String {
+    let kinds: Vec<String> = hist
+        .iter()
+        .filter_map(|e| match e {
+            Ev::Forged(_, v) => Some(format!("forged{}", v)),
+            Ev::Restart => Some("restart".to_owned()),
+            Ev::Switch(_) => Some("switch".to_owned()),
+            _ => None,
+        })
+        .collect();
+    format!("{}/{}", class, kinds.join("+"))
+}
+
+fn make_model<'a>(env: &'a Env, n_peers: usize, start: u8) -> TipModel<'a> {
+    let mut main = Chain::new(std::sync::Arc::clone(&env.consensus), scen::wavy_plan(6));
+    scen::extend_chain(&mut main, &env.scripts, 60, &[]);
+    let mut fork = main.fork(FORK_AT, 777);
+    scen::extend_chain(&mut fork, &env.scripts, 60, &[]);
+    TipModel {
+        env,
+        main,
+        fork,
+        cfg: ClientCfg { last_n: 3, max_outbound: 2, cp_interval: 4, ..Default::default() },
+        n_peers,
+        start,
+        base_height: 14,
+        track: RefCell::new(Track::default()),
+    }
+}
+
 pub(crate) fn run(opts: &Opts, report: &mut Report) {
     let thorough = opts.thorough();
+    // a recorded event list is replayed directly
+    if let Some((config, events)) = opts.replay.as_deref().and_then(bfs::read_replay) {
+        let env = Env::dummy();
+        let n_peers: usize = config.chars().next().and_then(|c| c.to_digit(10)).unwrap_or(2) as usize;
+        let start = ["fresh", "proven", "split"].iter().position(|s| config.ends_with(s)).unwrap_or(0) as u8;
+        let m = make_model(&env, n_peers, start);
+        let evs: Vec<Ev> = events.iter().filter_map(|e| parse_ev(e)).collect();
+        let mut rep = |hist: &[Ev], class: String, detail: String| {
+            if !class.starts_with("~not-judged") {
+                report.violation(signature(hist, &class), format!("[{}] after {:?}: {}", config, hist, detail), json!({"config": config, "events": hist.iter().map(|e| format!("{:?}", e)).collect::<Vec<_>>()}));
+            }
+        };
+        bfs::replay_one(&m, &evs, &mut rep);
+        return;
+    }
     // (peers, start, max depth)
     let configs: Vec<(usize, u8, usize)> = if thorough { vec![(2, 1, 5), (2, 0, 5), (2, 2, 5), (3, 1, 4)] } else { vec![(2, 1, 3), (2, 0, 3), (2, 2, 3)] };
     const SHARDS: usize = 16;
